@@ -24,11 +24,11 @@ def pool_cfg(name, n, maxpool, record):
     return name
 
 
-def ref_cfg(name, threads, maxops):
+def ref_cfg(name, threads, maxops, objs=2, chains=False, order="ref_first"):
     p = os.path.join(vlib.SPEC, "RefPool", name)
     with open(p, "w") as f:
-        f.write("SPECIFICATION Spec\nCONSTANTS\n  T = {%s}\n  O = {1, 2}\n  K = 2\n  MaxOps = %d\n  RECORD = FALSE\nINVARIANTS NeverEarly RecycleOnlyUnreferenced ExactlyOnce Quiet\n" %
-                (", ".join(str(i) for i in range(1, threads + 1)), maxops))
+        f.write("SPECIFICATION Spec\nCONSTANTS\n  T = {%s}\n  O = {%s}\n  K = 2\n  MaxOps = %d\n  RECORD = FALSE\n  Chains = %s\n  Order = \"%s\"\nINVARIANTS NeverEarly RecycleOnlyUnreferenced ExactlyOnce Quiet\n" %
+                (", ".join(str(i) for i in range(1, threads + 1)), ", ".join(str(i) for i in range(1, objs + 1)), maxops, "TRUE" if chains else "FALSE", order))
     return name
 
 
@@ -45,6 +45,16 @@ def run(v, tier, seed):
         vlib.require_ok(r, "RefImpl model check %d threads" % threads)
         vlib.require_coverage(r, ["New", "Copy", "Reset", "Alias", "Swap", "Publish", "Take", "Step"], "RefImpl")
         return "RefImpl %d threads x %d ops" % (threads, maxops), r
+
+    def chain_mc(maxops):
+        # single-threaded histories with objects that hold a Ref to another object (chains): Link / Pop and cascading recycles
+        r = vlib.tlc("RefImpl", ref_cfg("gen_MC_chain.cfg", 1, maxops, objs=3, chains=True), "RefPool", coverage=True, workers=4, timeout=3400, heap="8g")
+        vlib.require_ok(r, "RefImpl model check, chains")
+        vlib.require_coverage(r, ["New", "Copy", "Reset", "Link", "Pop", "Step"], "RefImpl chains")
+        # vacuity guard: the other order of SetRef (give up the old item first) must violate NeverEarly when the head of a chain is popped
+        g = vlib.tlc("RefImpl", ref_cfg("gen_Reach_unref_first.cfg", 1, 6, objs=3, chains=True, order="unref_first"), "RefPool", workers=2, timeout=900)
+        if g.violated != "NeverEarly": raise vlib.MachineryError("vacuity guard: SetRef in the order 'unref the old item first' does not violate NeverEarly in the chain model (%s)" % (g.violated or g.error))
+        return "RefImpl chains 1 thread x %d ops, 3 objects" % maxops, r
 
     def pool(n, maxpool):
         tag = "%d_%d" % (n, maxpool)
@@ -67,7 +77,7 @@ def run(v, tier, seed):
         return "PoolImpl N=%d MaxPool=%d" % (n, maxpool), r, vlib.read_ndjson(rep), beh[len(beh) // 2]
 
     def explore(iters, nt, nops, ntraces):
-        rep = W("ex.ndjson"); tr = W("trace.ndjson")
+        rep = W("ex%d.ndjson" % nt); tr = W("trace%d.ndjson" % nt)
         code, out, err = vlib.run([rc_bin, "explore", str(iters), str(nt), str(nops), str(seed), rep, tr, str(ntraces)], timeout=(1200 if tier == "quick" else 3400))
         if code in (66, 67) or "ERROR: AddressSanitizer" in err or "runtime error:" in err or vlib.crashed(code):
             return None, "[exit %s] " % code + err
@@ -91,10 +101,11 @@ def run(v, tier, seed):
 
     iters = 3000 if tier == "quick" else 60000
     with cf.ThreadPoolExecutor(max_workers=6) as ex:
-        jobs = [ex.submit(ref_mc, 2, 3)] + ([ex.submit(ref_mc, 3, 3)] if tier == "thorough" else [])
+        jobs = [ex.submit(ref_mc, 2, 3), ex.submit(chain_mc, 7 if tier == "quick" else 9)] + ([ex.submit(ref_mc, 3, 3)] if tier == "thorough" else [])
         pools = [ex.submit(pool, n, mp) for (n, mp) in ([(2, 0), (2, 1), (2, 3), (3, 2)] if tier == "quick" else [(2, 0), (2, 1), (2, 3), (3, 0), (3, 2), (3, 4)])]
         f_sts = [ex.submit(stress, 3 if tier == "quick" else 60, nt) for nt in (2, 3)]
-        f_ex = ex.submit(explore, iters, 3 if tier == "quick" else 4, 14, 500 if tier == "quick" else 4000)
+        f_exs = [ex.submit(explore, iters, 3 if tier == "quick" else 4, 14, 500 if tier == "quick" else 4000),
+                 ex.submit(explore, iters, 1, 30, 300 if tier == "quick" else 3000)]      # one thread: chains of objects (member Refs), Link / Pop
         for f in jobs:
             tag, r = f.result(); tot["states"] += r.distinct; tot["transitions"] += r.generated
             mc_notes.append({"instance": tag, "distinct": r.distinct, "generated": r.generated, "depth": r.depth, "wall_s": round(r.wall, 1)})
@@ -115,17 +126,19 @@ def run(v, tier, seed):
             st_rows = f_st.result(); st_rounds += [x for x in st_rows if x.get("summary")][0]["rounds"]
             for x in st_rows:
                 if x.get("violations"): v.violation("free-running threads (no scheduler): " + "; ".join(x["violations"]), x, tag="stress")
-        res, san = f_ex.result()
-        if san is not None:
-            v.violation("sanitizer report while threads share references to pooled objects: " + san[:1500].replace("\n", " | "), {"stderr": san[:6000], "cmd": "rc explore %d ... seed %d" % (iters, seed)}, tag="asan")
-            summ = {"executions": 0, "yields": 0, "traces_written": 0, "trace_lines": 0, "objects": 0}
-        else:
+        summ = {"executions": 0, "yields": 0, "traces_written": 0, "trace_lines": 0, "objects": 0}
+        for f_ex in f_exs:
+            res, san = f_ex.result()
+            if san is not None:
+                v.violation("sanitizer report while references to pooled objects are copied / reassigned / dropped: " + san[:1500].replace("\n", " | "), {"stderr": san[:6000], "cmd": "rc explore %d ... seed %d" % (iters, seed)}, tag="asan")
+                continue
             rows, accepted, maxline, tr, first = res
-            summ = [x for x in rows if x.get("summary")][0]
+            one = [x for x in rows if x.get("summary")][0]
+            for k in summ: summ[k] += one.get(k, 0)
             samples.append({"kind": "first lines of a recorded execution validated by TLC against RefTrace", "lines": first})
             for x in rows:
                 if x.get("summary"): continue
-                if x.get("violations"): v.violation("random schedule: " + "; ".join(x["violations"]), x, tag="explore")
+                if x.get("violations"): v.violation("random %s: " % ("schedule" if x.get("threads", 2) > 1 else "single-threaded history") + "; ".join(x["violations"]), x, tag="explore%d" % x.get("threads", 0))
             if not accepted:
                 # RefTrace is the property-level machine (exactly once, never early at the level of the counts): a rejection is a violation
                 v.violation("recorded execution is not a behaviour of the abstract reference-count machine: first unexplained line %s of %s" % (maxline, tr), {"trace": tr, "line": maxline}, tag="trace")
@@ -133,7 +146,7 @@ def run(v, tier, seed):
            "pool_behaviours_replayed": tot["behaviours"], "pool_behaviours_followed_exactly": tot["followed"], "pool_replay_steps": tot["steps"],
            "random_executions": summ["executions"], "scheduling_decisions": summ["yields"], "trace_lines_validated_by_tlc": summ["trace_lines"], "objects_obtained": summ["objects"], "free_running_rounds": st_rounds,
            "evaluations": tot["behaviours"] + summ["executions"], "distinct_nontrivial": tot["followed"],
-           "rule": "pool behaviours = path cover of EVERY transition of PoolImpl's state graph for each (objects per slab, max pool size) pair, distinct by construction, non-trivial = followed exactly to the end; random executions = 3-4 threads x 14 reference operations under seeded schedules in the ASan build",
+           "rule": "pool behaviours = path cover of EVERY transition of PoolImpl's state graph for each (objects per slab, max pool size) pair, distinct by construction, non-trivial = followed exactly to the end; random executions = 3-4 threads x 14 reference operations under seeded schedules, and single-threaded histories of 30 operations on chains of objects (member Refs), in the ASan build",
            "exhaustive": True, "model_runs": mc_notes, "samples": samples[:5]}
     assumptions = ["sequential consistency: the scheduler serialises threads at every AtomicCounter operation and Mutex operation; weak-memory effects are out of scope",
                    "a Ref object itself is only used by one thread at a time or under a Mutex (the library's documented contract); sharing is of the referenced objects",
